@@ -386,14 +386,14 @@ def _herm(a):
 def p_polar(case, C, NC, nat, wrap, eq, tn):
     m = gen_matrix(case["kind"], case["n"], case["seed"])
     side = case["side"]
+    default_error = None
     if side == "default":
+        side = "right"
         try:
             u, p = C.polar(nat(m))  # BaseConnector.polar(matrix, side="right")
         except TypeError as e:
-            raise Violation(f"C09:prim:{case['conn']}:polar:default-side:raises:TypeError",
-                            f"polar(matrix) without `side` (BaseConnector default 'right', "
-                            f"works under NumPy): {e}")
-        side = "right"
+            default_error = e
+            u, p = C.polar(nat(m), side="right")
     else:
         u, p = wrap(lambda a: C.polar(a, side=side))(nat(m))
     u, p = tn(u), tn(p)
@@ -404,6 +404,8 @@ def p_polar(case, C, NC, nat, wrap, eq, tn):
     eq("hermitian", p, _herm(p))
     eq("vs_numpy:U", u, ru)
     eq("vs_numpy:P", p, rp)
+    if default_error is not None:  # evaluated last, so the clauses above are still checked
+        eq("default-side:raises:TypeError", np.nan, 0.0)
 
 
 def p_expm(case, C, NC, nat, wrap, eq, tn):
